@@ -2319,3 +2319,120 @@ class Pop3Ops:
 for _n, _f in list(Pop3Ops.__dict__.items()):
     if callable(_f) and not _n.startswith("__"):
         setattr(Interp, _n, _f)
+
+
+# ---------------------------------------------------------------------------
+# C07 content half: ENVELOPE strings decode back to the header values
+#
+def _unfold_headers(hdr_bytes):
+    """Independent minimal RFC 5322 header reader: name -> list of raw values
+    (unfolded, leading/trailing whitespace stripped)."""
+    out = {}
+    cur = None
+    for line in hdr_bytes.replace(b"\r\n", b"\n").split(b"\n"):
+        if not line:
+            break
+        if line[:1] in (b" ", b"\t") and cur is not None:
+            out[cur][-1] += b" " + line.strip()
+            continue
+        name, sep, val = line.partition(b":")
+        if not sep:
+            cur = None
+            continue
+        cur = name.strip().lower()
+        out.setdefault(cur, []).append(val.strip())
+    return out
+
+
+def _norm_ws(b):
+    return b" ".join(b.split())
+
+
+_EW = re.compile(rb"=\?[^?\s]+\?[bBqQ]\?[^?\s]*\?=")
+
+
+def _skeleton(b):
+    """ASCII skeleton of a header value: encoded words and 8-bit bytes are
+    charset business (left open); quotes, backslashes and the rest are not."""
+    words = []
+    for w in b.split():
+        if _EW.search(w) or any(c < 0x20 or c >= 0x7F for c in w):
+            continue
+        words.append(w)
+    return b" ".join(words)
+
+
+def _decode_2047(b):
+    try:
+        from email.header import decode_header, make_header
+
+        return str(make_header(decode_header(b.decode("latin-1"))))
+    except Exception:
+        return None
+
+
+class EnvelopeOps:
+    async def op_envelope(self, op):
+        """FETCH (UID ENVELOPE BODY.PEEK[HEADER]) and compare strings."""
+        sess, ms = self.sess(op)
+        if sess is None or ms.dead or ms.selected is None:
+            return
+        txt, uids, valid = self.resolve_set(sess, ms, op)
+        r = await self.run_cmd(sess, ms, f"{'UID ' if op.get('uid') else ''}FETCH {txt} (UID ENVELOPE BODY.PEEK[] BODYSTRUCTURE RFC822.SIZE)")
+        if r.status is None or not r.ok:
+            return
+        for u in r.untagged:
+            if u.kind != "FETCH":
+                continue
+            try:
+                it = fetch_items(u)
+            except Exception:
+                continue
+            env = it.get("ENVELOPE")
+            hdr = it.get("BODY[]")
+            if not isinstance(env, list) or hdr is None:
+                continue
+            self.C("c07_envelope")
+            if len(env) != 10:
+                self.V("C07", "envelope_shape", n=u.num, items=len(env))
+                continue
+            h = _unfold_headers(bytes(hdr) if isinstance(hdr, Lit) else str(hdr).encode("latin-1"))
+
+            def sval(x):
+                if isinstance(x, Lit):
+                    return bytes(x)
+                if isinstance(x, QStr):
+                    return x.encode("latin-1")
+                if isinstance(x, Atom) and x.upper() == "NIL":
+                    return None
+                return str(x).encode("latin-1")
+
+            for idx, name in ((1, b"subject"), (9, b"message-id")):
+                got = sval(env[idx])
+                want = h.get(name, [None])[0]
+                ok = False
+                if want is None or want == b"":
+                    ok = got in (None, b"")
+                elif got is not None:
+                    g = _norm_ws(got)
+                    w = _norm_ws(want)
+                    if _skeleton(g) == _skeleton(w):
+                        continue
+                    cands = {w}
+                    d = _decode_2047(w)
+                    if d is not None:
+                        for enc in ("latin-1", "utf-8"):
+                            try:
+                                cands.add(_norm_ws(d.encode(enc)))
+                            except Exception:
+                                pass
+                    # asimap may re-encode non latin-1 text as RFC 2047
+                    gd = _decode_2047(g)
+                    ok = g in cands or (gd is not None and d is not None and _norm_ws(gd.encode("utf-8", "replace")) == _norm_ws(d.encode("utf-8", "replace")))
+                if not ok:
+                    self.V("C07", "envelope_field_differs", field=name.decode(), header=want, envelope=got, n=u.num)
+
+
+for _n, _f in list(EnvelopeOps.__dict__.items()):
+    if callable(_f) and not _n.startswith("__"):
+        setattr(Interp, _n, _f)
